@@ -10,7 +10,7 @@
 (* re-entry through frame:preprocess / frame:expandTemplate.                *)
 (*                                                                          *)
 (* Additional item kind:                                                    *)
-(*   [k |-> "inv", fn |-> "echo"|"err"|"pre"|"tpl"|"loop", args |-> Seq(arg)]*)
+(*   [k |-> "inv", fn |-> "echo"|"err"|"pre"|"tpl"|"loop"|"pyx"|"pcx"|"ext", args |-> Seq(arg)] *)
 (*     {{#invoke:M|fn|args}} with module functions of known behaviour:      *)
 (*     echo: returns "L" ++ first positional argument; err: raises a Lua    *)
 (*     error; pre: returns frame:preprocess(BODY) for a fixed wikitext BODY *)
@@ -328,6 +328,13 @@ ExpItem(it, f, ea, st, X) ==
                                  \* the same inside the module's own pcall; the module then returns normally
                                  [] it.fn = "pcx" ->
                                       R(<<"K">>, Push(Push(s4, Lbl("frame:expandTemplate()")), Lbl("TEMPLATE_NAME")))
+                                 \* frame:extensionTag: "nowiki" only makes a strip marker (nothing pushed); any
+                                 \* other tag pushes extensionTag() around tag_fn and preprocesses the result.
+                                 \* The module calls nowiki, span, nowiki.
+                                 [] it.fn = "ext" ->
+                                      LET s5 == Pop(Push(s4, Lbl("extensionTag()")))
+                                          s6 == Pop(Push(s5, Lbl("frame:preprocess()")))
+                                      IN R(<<"EXT">>, s6)
                                  [] it.fn = "pre" ->
                                       \* frame:preprocess(BODY): nested ctx.expand(BODY, parent) — expand all
                                       LET s5 == Push(s4, Lbl("frame:preprocess()"))
